@@ -5,6 +5,36 @@ ROOT = os.path.dirname(os.path.dirname(os.path.abspath(__file__)))
 props = [json.loads(l) for l in open(os.path.join(ROOT, "properties.jsonl"))]
 
 CHECKS = {
+ "C04": dict(
+   category="proof",
+   text="Coq (Flocq IEEE binary32/binary64): for each of 28 public constructor entry points a theorem over ALL values of the argument types: the model of the validation code agrees with the documented domain (MustErr with an allowed variant / MustOk / Unspecified regions listed), never panics, nested unwrap()/unreachable!() unreachable; LogNormal::from_mean_cv and Hypergeometric::new are proved outside explicit decidable known-defect classes and refuted inside them. The hand models are tied to the code by regenerated fingerprints and by correspondence on the special-value lattice cross product; the documented spec is also evaluated on every tuple directly against the real constructor (independent of the model).",
+   note="Trusted: Coq kernel, Flocq + classical real axioms; hand models (tied by correspondence); the spec file is our reading of the doc comments (DESIGN.md App. B); libm contracts for ln/powf in two constructors.",
+   technique="Coq proof over IEEE floats (Flocq) of model = documented spec + lattice correspondence + spec oracle on the real constructors",
+   design="DESIGN.md §6 C04, App. B"),
+ "C05": dict(
+   category="proof",
+   text="Coq: ziggurat first-pass return probability from the regenerated tables (>= 0.985 / 0.977), word bounds of rand's Canon and Lemire reductions, termination of the tree descent, and (Props/C02_identities.v) the inner-loop characterisations of BINV, Knuth and the geometric split; every sampler model carries explicit loop fuel and C01/C02's correspondence compares word consumption on every case. The parts that are NOT proved (acceptance constants of the paper-grade rejection samplers, CPU time) are decided by the direct oracle: counting RNG with a 10^5-word limit and a wall-clock watchdog around the real sample() over parameter grids incl. the integer extremes, random and single-word-adversarial streams, mean words <= 24.",
+   note="Partial by design: loop-bound theorems where elementary, exploration (watchdog) for the rest. Known finding F9 (Binomial u64::MAX walk) listed. Out-of-envelope observation: Poisson PD step H acceptance collapses for lambda > 1e17 (DESIGN.md).",
+   technique="Coq proof (table reflection, range-reduction word bounds) + counting-RNG/watchdog exploration on the real code",
+   design="DESIGN.md §6 C05"),
+ "C07": dict(
+   category="proof",
+   text="Coq: on the sampler models the decision tree for (location, scale) IS the decision tree of the standard sampler with the affine expression applied at the leaves (syntactic equality of trees; for inverse Gaussian, triangular and Pert a semantic simulation): identical decisions, identical words consumed, value = loc + scale * standard value as reals; from_zscore is literally mean + std_dev * z. Normal, LogNormal, Exp, Cauchy, Gumbel, Frechet, Pareto, Weibull, SkewNormal, Gamma (3 representations), InverseGaussian, Triangular, Pert. Direct oracle on the real crate: paired sample() calls on identical streams, exact recomputation of the map on the standard sample (bit equality where the map is the last IEEE operations), equal word counts.",
+   note="Models tied to the code by C01's pathwise correspondence; python float arithmetic is IEEE binary64.",
+   technique="Coq proof (tree-map equalities / simulation) + paired-sampling oracle with exact IEEE recomputation",
+   design="DESIGN.md §6 C07"),
+ "C11": dict(
+   category="proof",
+   text="Coq: reverse cumulative sum specification (entry i = sum_{j>i} alpha_j) so the stick-breaking chain uses Beta(alpha_i, tail_i); stick-breaking and gamma-normalisation outputs lie on the simplex (exact sum 1) for all inputs, lifted to every result of the Dirichlet model for both methods; method switch iff all alpha_i <= fl(0.1). Model tied pathwise to the crate on identical alpha bits and words; simplex predicate and sample() = sample_to_slice() on the real output.",
+   note="Marginal/ratio laws reduce to C01's Beta/Gamma results by classical theorems not formalised (B-class).",
+   technique="Coq proof (list recursion spec, simplex lemmas lifted over the model) + pathwise correspondence",
+   design="DESIGN.md §6 C11"),
+ "C12": dict(
+   category="proof",
+   text="Coq: norm identities of the circle/sphere transforms, angle doubling, z = 1-2s, accepted points inside the disc/ball, the exact [-1,1) draw, all lifted by induction over the rejection loop to every result of the four sampler models; models tied pathwise to the crate; norm predicate (4 ulp) on the real output incl. adversarial words.",
+   note="Uniformity reduces to classical geometric facts not formalised (B-class).",
+   technique="Coq proof (real algebra lifted over the loop) + pathwise correspondence + norm oracle",
+   design="DESIGN.md §6 C12"),
  "C13": dict(
    category="proof",
    text="Coq: the six single-draw samplers consume exactly one word and their transform is the documented quantile (C01 theorems, re-stated); the Kolmogorov distance of the empirical measure of N outputs from a monotone CDF is bounded by the finite step formula (ks_step_formula, with ties), which is attained (ks_sup_exact), and is bounded by 1/N + e + delta*M from pointwise accuracy (ks_from_pointwise). Decision on the real crate: ALL 2^24 first-word patterns per (family, parameter point) enumerated: finite, in support, monotone, one word; pointwise accuracy against the Coq model enclosure at stratified draws (both ends dense).",
